@@ -907,7 +907,10 @@ class Executor:
         if node.id in st.env:
             return [(st, st.env[node.id])]
         if node.id in self.module_consts:
-            return [(st, self.module_consts[node.id])]
+            c = self.module_consts[node.id]
+            if isinstance(c, tuple) and len(c) == 2 and c[0] == 'constexpr':
+                return self.eval(c[1], st)       # e.g. PI2 = np.pi / 2: evaluated where it is read
+            return [(st, c)]
         if node.id in ('True', 'False', 'None'):
             return [(st, {'True': True, 'False': False, 'None': None}[node.id])]
         return [(st, ('global', node.id))]
